@@ -66,6 +66,10 @@ type c09Script struct {
 	closes   int
 	out      [][]byte
 	datagram bool
+	// stall: the peer has stopped reading and the socket buffers are full: Write blocks, as in the kernel, until
+	// the conn is closed (or the peer reads again); blockedW = writers currently parked in Write
+	stall    bool
+	blockedW int
 }
 
 func newC09Script(datagram bool) *c09Script {
@@ -96,6 +100,13 @@ func (s *c09Script) Read(b []byte) (int, error) {
 func (s *c09Script) Write(b []byte) (int, error) {
 	s.mu.Lock()
 	defer s.mu.Unlock()
+	if s.stall && !s.closed {
+		s.blockedW++
+		for s.stall && !s.closed {
+			s.cond.Wait()
+		}
+		s.blockedW--
+	}
 	if s.closed {
 		return 0, net.ErrClosed
 	}
@@ -115,6 +126,17 @@ func (s *c09Script) feed(b []byte) {
 	s.in = append(s.in, append([]byte(nil), b...))
 	s.cond.Broadcast()
 	s.mu.Unlock()
+}
+func (s *c09Script) setStall(on bool) {
+	s.mu.Lock()
+	s.stall = on
+	s.cond.Broadcast()
+	s.mu.Unlock()
+}
+func (s *c09Script) blocked() int {
+	s.mu.Lock()
+	defer s.mu.Unlock()
+	return s.blockedW
 }
 func (s *c09Script) fail(err error) {
 	s.mu.Lock()
@@ -193,6 +215,14 @@ type c09Conn struct {
 	peerClose func()
 	sockClose func() // what the owner of the socket does when the session does not own it
 	cleanup   func()
+	// connection context (cancelled by Close)
+	ctxDone func() <-chan struct{}
+	// stalled-write scenarios (nil where the transport cannot stall): switch the peer between reading and not
+	// reading; number of writers parked in the socket's Write (witness)
+	setStall func(on bool)
+	stalledW func() int
+	// a request whose body is far larger than the socket buffers (real stream sockets)
+	bigPost func(ctx context.Context) error
 }
 
 type c09Cfg struct {
@@ -200,6 +230,10 @@ type c09Cfg struct {
 	nstart                    uint32
 	blockwise                 bool
 	closeSocket               bool
+	// stall: the peer does not read from the start (stream / scripted transports)
+	stall bool
+	// maxMsg, when non-zero: the connection's maximal message size
+	maxMsg uint32
 	// busy, when non-nil: the connection's handler blocks on it for every request of the peer and the receive
 	// queue holds one message, so that the reader parks on a full queue (tcp transport)
 	busy chan struct{}
@@ -360,6 +394,9 @@ func c09UDPConfig(cfg c09Cfg) udpClient.Config {
 	c.LimitClientParallelRequests = cfg.limitTotal
 	c.LimitClientEndpointParallelRequests = cfg.limitEndpoint
 	c.MaxMessageSize = 64 * 1024
+	if cfg.maxMsg != 0 {
+		c.MaxMessageSize = cfg.maxMsg
+	}
 	c.Handler = func(w *responsewriter.ResponseWriter[*udpClient.Conn], r *pool.Message) {}
 	return c
 }
@@ -397,6 +434,7 @@ func c09WrapUDP(tr int, cc *udpClient.Conn) *c09Conn {
 	c.closeFn = cc.Close
 	c.addOn = func(f func()) { cc.AddOnClose(f) }
 	c.done = cc.Done
+	c.ctxDone = func() <-chan struct{} { return cc.Context().Done() }
 	return c
 }
 
@@ -436,6 +474,7 @@ func newC09Conn(tr int, cfg c09Cfg) (*c09Conn, error) {
 		return c, nil
 	case 1: // tcp Conn + real tcp/client.Session over the scripted conn
 		sc := newC09Script(false)
+		sc.stall = cfg.stall
 		tc := tcpClient.DefaultConfig
 		tc.Errors = func(error) {}
 		tc.DisableTCPSignalMessageCSM = true
@@ -445,6 +484,9 @@ func newC09Conn(tr int, cfg c09Cfg) (*c09Conn, error) {
 		tc.LimitClientEndpointParallelRequests = cfg.limitEndpoint
 		tc.ReceivedMessageQueueSize = 16
 		tc.MessagePool = pool.New(64, 2048)
+		if cfg.maxMsg != 0 {
+			tc.MaxMessageSize = cfg.maxMsg
+		}
 		tc.Handler = func(w *responsewriter.ResponseWriter[*tcpClient.Conn], r *pool.Message) {}
 		if cfg.busy != nil {
 			tc.ReceivedMessageQueueSize = 1
@@ -492,13 +534,23 @@ func newC09Conn(tr int, cfg c09Cfg) (*c09Conn, error) {
 		c.closeFn = cc.Close
 		c.addOn = func(f func()) { cc.AddOnClose(f) }
 		c.done = cc.Done
+		c.ctxDone = func() <-chan struct{} { return cc.Context().Done() }
 		c.sent = sc.written
 		c.deliver = sc.feed
 		c.peerClose = func() { sc.fail(io.EOF) }
 		c.sockClose = func() { _ = sc.Close() }
+		c.setStall = sc.setStall
+		c.stalledW = sc.blocked
 		c.cleanup = func() {
-			_ = cc.Close()
-			_ = sc.Close()
+			if cfg.stall {
+				// the socket goes first (what releases a stalled write whatever net.Conn.Close does); Close may be
+				// stuck behind that write on a defective tree, so it is not waited for
+				_ = sc.Close()
+				go func() { _ = cc.Close() }()
+			} else {
+				_ = cc.Close()
+				_ = sc.Close()
+			}
 			select {
 			case <-runDone:
 			case <-time.After(10 * time.Second):
@@ -507,6 +559,7 @@ func newC09Conn(tr int, cfg c09Cfg) (*c09Conn, error) {
 		return c, nil
 	case 2: // udp Conn + real dtls/server.Session over the scripted conn (datagram reads)
 		sc := newC09Script(true)
+		sc.stall = cfg.stall
 		uc := c09UDPConfig(cfg)
 		session := dtlsServer.NewSession(context.Background(), coapNet.NewConn(sc), uc.MaxMessageSize, 1500, cfg.closeSocket)
 		var uopts []udpClient.Option
@@ -521,9 +574,16 @@ func newC09Conn(tr int, cfg c09Cfg) (*c09Conn, error) {
 		c.deliver = sc.feed
 		c.peerClose = func() { sc.fail(io.EOF) }
 		c.sockClose = func() { _ = sc.Close() }
+		c.setStall = sc.setStall
+		c.stalledW = sc.blocked
 		c.cleanup = func() {
-			_ = cc.Close()
-			_ = sc.Close()
+			if cfg.stall {
+				_ = sc.Close()
+				go func() { _ = cc.Close() }()
+			} else {
+				_ = cc.Close()
+				_ = sc.Close()
+			}
 			select {
 			case <-runDone:
 			case <-time.After(10 * time.Second):
@@ -559,10 +619,25 @@ func newC09Conn(tr int, cfg c09Cfg) (*c09Conn, error) {
 			options.WithLimitClientEndpointParallelRequest(cfg.limitEndpoint),
 			options.WithBlockwise(cfg.blockwise, blockwise.SZX16, 1000*time.Hour),
 		}
-		cc, err := udp.Dial(peer.LocalAddr().String(), dopts...)
-		if err != nil {
-			_ = peer.Close()
-			return nil, err
+		if cfg.maxMsg != 0 {
+			dopts = append(dopts, options.WithMaxMessageSize(cfg.maxMsg))
+		}
+		var cc *udpClient.Conn
+		var ownSock *net.UDPConn
+		if cfg.closeSocket {
+			cc, err = udp.Dial(peer.LocalAddr().String(), dopts...)
+			if err != nil {
+				_ = peer.Close()
+				return nil, err
+			}
+		} else {
+			// udp.Client over a socket that stays owned by the caller (no WithCloseSocket)
+			ownSock, err = net.DialUDP("udp4", nil, peer.LocalAddr().(*net.UDPAddr))
+			if err != nil {
+				_ = peer.Close()
+				return nil, err
+			}
+			cc = udp.Client(ownSock, dopts...)
 		}
 		c := c09WrapUDP(3, cc)
 		c.sent = func() [][]byte {
@@ -584,9 +659,16 @@ func newC09Conn(tr int, cfg c09Cfg) (*c09Conn, error) {
 			}
 		}
 		c.peerClose = func() {}
-		c.sockClose = func() {}
+		c.sockClose = func() {
+			if ownSock != nil {
+				_ = ownSock.Close()
+			}
+		}
 		c.cleanup = func() {
 			_ = cc.Close()
+			if ownSock != nil {
+				_ = ownSock.Close()
+			}
 			select {
 			case <-cc.Done():
 			case <-time.After(10 * time.Second):
@@ -594,6 +676,8 @@ func newC09Conn(tr int, cfg c09Cfg) (*c09Conn, error) {
 			_ = peer.Close()
 		}
 		return c, nil
+	case 6:
+		return newC09RealTCP(cfg)
 	}
 	return nil, fmt.Errorf("unknown transport %d", tr)
 }
@@ -1418,7 +1502,7 @@ func coqZList(v []int64) string {
 func runC09(a runArgs) error {
 	e := NewEmitter("C09", "Liveness.Run")
 	e.ShardSize = 400
-	e.Rule = "watchdog runs of the real client/server code: (transport: in-memory udp, tcp + real tcp/client.Session over a scripted net.Conn, udp + real dtls/server.Session over a scripted net.Conn, udp.Dial over loopback) x operation (request, observe, observation cancel, ping, confirmable / non-confirmable one-way write) x interruption point (before the call, on the wire, after an empty ACK, mid block-wise, queued behind the endpoint limit / total limit / NSTART) x peer behaviour (silence, garbage, unrelated well-formed messages) x trigger (cancel, deadline, local Close, peer close, none = proper answer as control); discovery on a started / not yet started server; 2-8 concurrent Close calls with 0-3 operations in flight and 1-4 on-close callbacks on the three real session types; 2-8 concurrent Server.Stop calls with server-initiated operations in flight (udp and tcp server). Distinct = distinct scenario; non-trivial = the operation is blocked in a wait when the trigger fires (every scenario except the non-confirmable write), or a close/stop run with at least one callback."
+	e.Rule = "watchdog runs of the real client/server code: (transport: in-memory udp, tcp + real tcp/client.Session over a scripted net.Conn, udp + real dtls/server.Session over a scripted net.Conn, udp.Dial over loopback) x operation (request, observe, observation cancel, ping, confirmable / non-confirmable one-way write) x interruption point (before the call, on the wire, after an empty ACK, mid block-wise, queued behind the endpoint limit / total limit / NSTART) x peer behaviour (silence, garbage, unrelated well-formed messages) x trigger (cancel, deadline, local Close, peer close, none = proper answer as control); discovery on a started / not yet started server; 2-8 concurrent Close calls with 0-3 operations in flight and 1-4 on-close callbacks on the three real session types; 2-8 concurrent Server.Stop calls with server-initiated operations in flight (udp and tcp server); an operation whose write is stalled in the socket because the peer stopped reading (tcp and dtls session over a scripted conn whose Write blocks until it is closed; real loopback tcp with a body beyond the socket buffers) x (1-8 concurrent Close, peer closes, context cancelled / expired); the reader loop ended by the peer (input that does not decode, oversized message, peer closes) with 0-3 operations in flight and nobody calling Close, socket owned by the session or by the caller (tcp, dtls, udp.Dial / udp.Client over an own socket). Distinct = distinct scenario; non-trivial = the operation is blocked in a wait when the trigger fires (every scenario except the non-confirmable write), or a close/stop run with at least one callback."
 	if os.Getenv("HX_CONFIRM") != "" {
 		c09Watchdog = 10 * time.Second
 	}
@@ -1489,6 +1573,33 @@ func runC09(a runArgs) error {
 			"disc", fmt.Sprintf("disc-started-%s", coqBool(k.started)), fmt.Sprintf("disc-trig%d", k.trig))
 	}
 
+	doStall := func(k c09StallCase, o c09StallObs) {
+		e.Add(fmt.Sprintf("Stall %d %d %d %d %d %s %s %s %s %s %d", k.tr, k.op, k.trig, k.nclose, k.ncb, coqZList(o.cb),
+			coqBool(o.done), coqBool(o.closers), coqBool(o.panic_), coqBool(o.op), o.err), k.desc(), true,
+			"stall", fmt.Sprintf("stall-tr%d", k.tr), fmt.Sprintf("stall-op%d", k.op), fmt.Sprintf("stall-trig%d", k.trig))
+	}
+	doRend := func(k c09ReaderEndCase, o c09ReaderEndObs) {
+		e.Add(fmt.Sprintf("ReaderEnd %d %s %d %d %d %s %s %s %s %s", k.tr, coqBool(k.sock), k.cause, k.ninfl, k.ncb, coqZList(o.cb),
+			coqBool(o.done), coqBool(o.ctx), coqBool(o.ops), coqBool(o.late)), k.desc(), true,
+			"rend", fmt.Sprintf("rend-tr%d", k.tr), fmt.Sprintf("rend-sock-%s", coqBool(k.sock)), fmt.Sprintf("rend-cause%d", k.cause))
+	}
+	runStall := func(k c09StallCase) (o c09StallObs, err error) {
+		for attempt := 0; attempt < 3; attempt++ { // a failed SETUP (not an observation) is retried
+			if o, err = runC09Stall(k); err == nil {
+				break
+			}
+		}
+		return o, err
+	}
+	runRend := func(k c09ReaderEndCase) (o c09ReaderEndObs, err error) {
+		for attempt := 0; attempt < 3; attempt++ {
+			if o, err = runC09ReaderEnd(k); err == nil {
+				break
+			}
+		}
+		return o, err
+	}
+
 	if a.only != "" {
 		f := strings.Fields(a.only)
 		atoi := func(s string) int { v, _ := strconv.Atoi(s); return v }
@@ -1501,6 +1612,20 @@ func runC09(a runArgs) error {
 			doStop(c09StopCase{atoi(f[1]), atoi(f[2]), atoi(f[3]), atoi(f[4])})
 		case f[0] == "disc" && len(f) == 4:
 			doDisc(c09DiscCase{f[1] == "true", atoi(f[2]), atoi(f[3])})
+		case f[0] == "stall" && len(f) == 6:
+			k := c09StallCase{atoi(f[1]), atoi(f[2]), atoi(f[3]), atoi(f[4]), atoi(f[5])}
+			if o, err := runStall(k); err != nil {
+				setupErrs = append(setupErrs, k.desc()+": "+err.Error())
+			} else {
+				doStall(k, o)
+			}
+		case f[0] == "rend" && len(f) == 6:
+			k := c09ReaderEndCase{atoi(f[1]), f[2] == "true", atoi(f[3]), atoi(f[4]), atoi(f[5])}
+			if o, err := runRend(k); err != nil {
+				setupErrs = append(setupErrs, k.desc()+": "+err.Error())
+			} else {
+				doRend(k, o)
+			}
 		default:
 			return fmt.Errorf("bad descriptor %q", a.only)
 		}
@@ -1623,6 +1748,105 @@ func runC09(a runArgs) error {
 				doStop(c09StopCase{srv, n, 1 + rng.Intn(3), 1 + rng.Intn(3)})
 			}
 		}
+	}
+	// ---------- stalled writes; reader loops ended by the peer ----------
+	var stalls []c09StallCase
+	for _, tr := range []int{1, 2} {
+		for _, op := range []int{0, 1, 2, 3, 4, 5} {
+			if tr == 1 && op == 5 {
+				continue // tcp has one kind of one-way write
+			}
+			if !thorough && tr == 2 && (op == 1 || op == 2) {
+				continue
+			}
+			stalls = append(stalls, c09StallCase{tr, op, 2, 1 + rng.Intn(3), 1 + rng.Intn(3)})
+			if thorough || op == 0 || op == 3 {
+				stalls = append(stalls, c09StallCase{tr, op, 3, 0, 1 + rng.Intn(3)})
+			}
+			if thorough {
+				stalls = append(stalls, c09StallCase{tr, op, 2, 4 + rng.Intn(5), 1 + rng.Intn(3)})
+			}
+		}
+	}
+	// the caller's context ends while the write is stalled (stream transport)
+	stalls = append(stalls, c09StallCase{1, 0, 0, 0, 1})
+	if thorough {
+		stalls = append(stalls, c09StallCase{1, 3, 1, 0, 1}, c09StallCase{1, 1, 0, 0, 2}, c09StallCase{1, 4, 1, 0, 1})
+	}
+	var rends []c09ReaderEndCase
+	rendReps := 1
+	if thorough {
+		rendReps = 4
+	}
+	for rep := 0; rep < rendReps; rep++ {
+		for _, tr := range []int{1, 2, 3} {
+			for _, sock := range []bool{true, false} {
+				for cause := 0; cause <= 2; cause++ {
+					if cause == 2 && tr == 3 {
+						continue // a datagram peer cannot close
+					}
+					ninfl := 1 + rng.Intn(3)
+					if rep > 0 {
+						ninfl = rng.Intn(4)
+					}
+					rends = append(rends, c09ReaderEndCase{tr, sock, cause, ninfl, 1 + rng.Intn(3)})
+				}
+			}
+		}
+	}
+	{
+		stallOut := make([]c09StallObs, len(stalls))
+		stallErr := make([]error, len(stalls))
+		rendOut := make([]c09ReaderEndObs, len(rends))
+		rendErr := make([]error, len(rends))
+		var wg sync.WaitGroup
+		sem2 := make(chan struct{}, 8)
+		for i := range stalls {
+			wg.Add(1)
+			sem2 <- struct{}{}
+			go func(i int) {
+				defer wg.Done()
+				defer func() { <-sem2 }()
+				stallOut[i], stallErr[i] = runStall(stalls[i])
+			}(i)
+		}
+		for i := range rends {
+			wg.Add(1)
+			sem2 <- struct{}{}
+			go func(i int) {
+				defer wg.Done()
+				defer func() { <-sem2 }()
+				rendOut[i], rendErr[i] = runRend(rends[i])
+			}(i)
+		}
+		wg.Wait()
+		for i, k := range stalls {
+			if stallErr[i] != nil {
+				setupErrs = append(setupErrs, k.desc()+": "+stallErr[i].Error())
+				continue
+			}
+			doStall(k, stallOut[i])
+		}
+		for i, k := range rends {
+			if rendErr[i] != nil {
+				setupErrs = append(setupErrs, k.desc()+": "+rendErr[i].Error())
+				continue
+			}
+			doRend(k, rendOut[i])
+		}
+	}
+	// real loopback tcp, peer never reads: sequential (the witness is a stack snapshot of the whole process)
+	realStalls := []c09StallCase{{6, 6, 2, 1, 2}, {6, 6, 2, 3, 1}, {6, 6, 3, 0, 1}}
+	if thorough {
+		realStalls = append(realStalls, c09StallCase{6, 6, 2, 8, 3}, c09StallCase{6, 6, 0, 0, 1}, c09StallCase{6, 6, 1, 0, 1})
+	}
+	for _, k := range realStalls {
+		o, err := runStall(k)
+		if err != nil {
+			setupErrs = append(setupErrs, k.desc()+": "+err.Error())
+			continue
+		}
+		doStall(k, o)
 	}
 	if len(setupErrs) > 0 {
 		e.Extra["setup_errors"] = setupErrs
